@@ -210,6 +210,20 @@ CLAIMED = {
               "and table-collection keywords are not in the grammar."),
         technique="TLC model checking of print/parse on the lexeme model + TLC-generated decks round-tripped through the real writer and parser",
     ),
+    "C20": dict(
+        category="exploration",
+        text=("Corruptions.tla: corruption scripts over decks and result files (random chains of <= 3 structure-aware operators by TLC "
+              "simulation, plus the systematic family that perturbs every integer of the first records of every keyword in six ways) "
+              "and the admissible outcomes (a result or an exception derived from std::exception).  The driver resolves the scripts "
+              "against TLC-generated models and shipped result files; harness/crashprobe, linked against an ASan + UBSan build of the "
+              "current tree, runs parse / EclipseState / Schedule / SummaryConfig or EclFile / ERst / ESmry / EGrid under a time bound; "
+              "TLC judges all recorded outcomes in one pass (Trace_Corruptions).  Exploration level: the inputs are specification "
+              "behaviours, the verdict on memory safety is the sanitizers' on the executed paths."),
+        design_ref="DESIGN.md section 12.6",
+        note=("Trusted: gcc 12 AddressSanitizer / UndefinedBehaviorSanitizer; the attribution of reports to inputs.  An allocation the "
+              "sanitizer refuses counts as std::bad_alloc.  Known findings (signed overflows for absurd integers) are listed per source file."),
+        technique="TLC-generated corruption scripts replayed into a sanitizer build, outcomes validated by TLC",
+    ),
     "C05": dict(
         category="model_checking",
         text=("Restart.tla: saving report steps into a unified file (keeps earlier steps, drops later ones) or separate files, loading "
